@@ -6,6 +6,7 @@ package main
 
 import (
 	"fmt"
+	"golang.org/x/tools/go/ssa"
 	"strings"
 )
 
@@ -101,5 +102,50 @@ func buildAccessors(p *Program, tier string) ([]*Unit, []UnitError) {
 		units = append(units, u)
 	}
 	_ = strings.Join
+	// the interface contract assumed at dynamic calls of Decorations() (modifies nothing) holds for every implementer:
+	// the method bodies contain no store, no map update and no call
+	ex := p.newExec("decorations-methods")
+	n, bad := 0, ""
+	for _, nt := range p.nodeTypes(pkgDst) {
+		fn := p.fns[fmt.Sprintf("%s.(*%s).Decorations", pkgDst, nt.Name)]
+		if fn == nil {
+			bad += " " + nt.Name + "(missing)"
+			continue
+		}
+		ex.unit.addFunc(fn.String())
+		n++
+		if !readsOnly(fn) {
+			bad += " " + nt.Name
+		}
+	}
+	goal := "true"
+	if bad != "" || n == 0 {
+		goal = "false"
+	}
+	o := ex.oblige("dst#iface:Decorations_methods_only_read", "frame", "true", goal, fmt.Sprintf("%d Decorations methods examined; not read-only:%s", n, bad), "")
+	o.Guard = "true"
+	units = append(units, ex.unit)
 	return units, errs
+}
+
+// readsOnly: the function stores only to its own non-escaping locals, updates no map and calls nothing.
+func readsOnly(fn *ssa.Function) bool {
+	for _, b := range fn.Blocks {
+		for _, in := range b.Instrs {
+			switch x := in.(type) {
+			case *ssa.Store:
+				if a, ok := x.Addr.(*ssa.Alloc); !ok || a.Heap {
+					return false
+				}
+			case *ssa.MapUpdate, *ssa.Go, *ssa.Defer, *ssa.Send:
+				return false
+			case *ssa.Call:
+				if bi, ok := x.Call.Value.(*ssa.Builtin); ok && (bi.Name() == "ssa:deferstack" || bi.Name() == "len" || bi.Name() == "cap") {
+					continue
+				}
+				return false
+			}
+		}
+	}
+	return true
 }
